@@ -212,6 +212,72 @@ unguard_harness!(guard_unguard_roots1, 1);
 unguard_harness!(guard_unguard_roots2, 2);
 unguard_harness!(guard_unguard_roots3, 3);
 
+// ---- guard-storage pooling: storage that passes through the pool comes back with no roots ------------
+// Space::return_guard_to_pool(storage) then Space::create_guard(): C13 "creating and dropping guards ... exactly the
+// objects reachable from LIVE guards are counted live" - a new guard built on recycled storage must not inherit
+// the roots of the dead guard the storage came from.  The recycled roots are dangling pointers to really freed
+// boxes, so any dereference is a CBMC pointer-check failure.  K = storages already pooled, N = roots returned.
+fn guard_pool_contract<const K: usize, const N: usize>() {
+    let mut space: Space<Obj> = Space::new();
+    for _ in 0..K {
+        space.guard_pool.push(Vec::new()); // pool invariant on entry: pooled storage holds no roots
+    }
+    let mut storage: Vec<NonNull<GcBox<Obj>>> = Vec::new();
+    for _ in 0..N {
+        storage.push(freed_box());
+    }
+    space.return_guard_to_pool(storage);
+    assert!(space.guard_pool.len() == if K < 16 { K + 1 } else { 16 }, "OBL gc_handles/Space::return_guard_to_pool/ensures#pool_grows_by_one_up_to_16");
+    let mut all_empty = true;
+    for v in space.guard_pool.iter() {
+        if !v.is_empty() {
+            all_empty = false;
+        }
+    }
+    assert!(all_empty, "OBL gc_handles/Space::return_guard_to_pool/ensures#pooled_storage_holds_no_roots");
+    let pool0 = space.guard_pool.len();
+    let active0 = space.active_guards.len();
+    let g = space.create_guard();
+    assert!(g.len() == 0 && g.is_empty(), "OBL gc_handles/Space::create_guard/ensures#new_guard_has_no_roots");
+    assert!(space.guard_pool.len() == pool0 - 1, "OBL gc_handles/Space::create_guard/ensures#takes_one_pooled_storage");
+    assert!(space.active_guards.len() == active0 + 1, "OBL gc_handles/Space::create_guard/ensures#guard_registered_once");
+    let registered = match space.active_guards.last().and_then(|w| w.upgrade()) {
+        Some(rc) => Rc::ptr_eq(&rc, &g.inner),
+        None => false,
+    };
+    assert!(registered, "OBL gc_handles/Space::create_guard/ensures#registered_entry_is_this_guard");
+    kani::cover!(N > 0, "COVER storage with stale roots recycled");
+    core::mem::forget(g);
+    core::mem::forget(space);
+}
+
+// a fresh guard (empty pool) has no roots and is registered
+#[cfg_attr(kani, kani::proof)]
+#[cfg_attr(kani, kani::unwind(3))]
+fn space_create_guard_fresh() {
+    let mut space: Space<Obj> = Space::new();
+    let g = space.create_guard();
+    assert!(g.len() == 0 && g.is_empty(), "OBL gc_handles/Space::create_guard/ensures#fresh_guard_has_no_roots");
+    assert!(space.active_guards.len() == 1, "OBL gc_handles/Space::create_guard/ensures#fresh_guard_registered_once");
+    kani::cover!(true, "COVER fresh guard");
+    core::mem::forget(g);
+    core::mem::forget(space);
+}
+
+macro_rules! guard_pool_harness {
+    ($name:ident, $k:expr, $n:expr) => {
+        #[cfg_attr(kani, kani::proof)]
+        #[cfg_attr(kani, kani::unwind(19))]
+        fn $name() {
+            guard_pool_contract::<$k, $n>();
+        }
+    };
+}
+guard_pool_harness!(guard_pool_k0_n2, 0, 2);
+guard_pool_harness!(guard_pool_k15_n1, 15, 1);
+guard_pool_harness!(guard_pool_k16_n1, 16, 1);
+
+
 #[cfg(all(test, not(kani)))]
 #[test]
 fn verif_replay_gc_handles() {
@@ -225,5 +291,9 @@ fn verif_replay_gc_handles() {
         ("guard_unguard_roots1", guard_unguard_roots1 as fn()),
         ("guard_unguard_roots2", guard_unguard_roots2 as fn()),
         ("guard_unguard_roots3", guard_unguard_roots3 as fn()),
+        ("space_create_guard_fresh", space_create_guard_fresh as fn()),
+        ("guard_pool_k0_n2", guard_pool_k0_n2 as fn()),
+        ("guard_pool_k15_n1", guard_pool_k15_n1 as fn()),
+        ("guard_pool_k16_n1", guard_pool_k16_n1 as fn()),
     ]);
 }
